@@ -203,6 +203,8 @@ impl ReaderGroup {
                 // then what must have happened is that somebody else has completed this
                 // written to the queue, and a reader has bypassed it. We should retry
                 #[cfg(feature = "multiqueue2_verif")]
+                crate::verif_hooks::touch(self as *const ReaderGroup);
+                #[cfg(feature = "multiqueue2_verif")]
                 crate::verif_hooks::touch(*reader_ptr);
                 let rpos = (**reader_ptr).pos_data.load_count(MAYBE_ACQUIRE);
                 let (diff, tofar) = past(cur_writer, rpos);
